@@ -4,6 +4,8 @@
 //	e<N>   the same for stderr
 //	co ce  close stdout / stderr (later writes to it fail and are lost)
 //	s<ms>  sleep
+//	b<ms>  leave a background descendant behind: it inherits stdout and stderr, writes nothing,
+//	       lingers for ms milliseconds and exits; the script continues at once
 //	d<hex> expected working directory (hex of the path); exit 97 at once if it differs
 //	x<c>   exit with code c
 //	k<sig> kill itself with signal sig
@@ -15,6 +17,7 @@ package main
 import (
 	"encoding/hex"
 	"os"
+	"os/exec"
 	"path/filepath"
 	"strconv"
 	"syscall"
@@ -52,6 +55,14 @@ func main() {
 			} else {
 				files[1].Close()
 			}
+		case 'b':
+			self, err := os.Executable()
+			if err != nil {
+				self = os.Args[0]
+			}
+			bg := exec.Command(self, "s"+arg)
+			bg.Stdout, bg.Stderr = os.Stdout, os.Stderr // *os.File: the descriptors themselves are inherited
+			_ = bg.Start()                               // never waited for
 		case 's':
 			ms, _ := strconv.Atoi(arg)
 			time.Sleep(time.Duration(ms) * time.Millisecond)
